@@ -444,7 +444,7 @@ def check_padmm(ctx, model, case):
     kw = dict(maxiter=case["maxiter"], key=G.make_key(case.get("key")), **_factor_arg(case["factor"]))
     r = _impl(lambda: ProximalADMM.estimate_parameters(A, B, **kw))
     MA = G.dense(case["A"])
-    MB = -np.eye(MA.shape[0]) if case["B"] is None else G.dense(case["B"])
+    MB = -np.eye(MA.shape[0], dtype=MA.dtype) if case["B"] is None else G.dense(case["B"])
     ctx.case({k: case[k] for k in ("what", "factor", "maxiter", "key")} | {"A": case["A"]["kind"], "B": None if case["B"] is None else case["B"]["kind"]},
              None if case["maxiter"] < 1 else json.dumps(case, sort_keys=True))
     ctx.count(f"padmm:factor={case['factor']}")
@@ -540,11 +540,11 @@ def check_diagnorm(ctx, model, case):
     r = _impl(lambda: D.norm(o))
     full = _full_diag(case)
     if not _square(case):
-        m = ("err", "value")
+        m = _model(model, "diagnorm", ord=case["ord"], d=fs2b(np.asarray(case["dre"], dtype=np.float64)), square=False)
     elif np.iscomplexobj(full):
         m = _model(model, "diagnorm", ord=case["ord"], re=fs2b(full.real), im=fs2b(full.imag))
     else:
-        m = _model(model, "diagnorm", ord=case["ord"], d=fs2b(full))
+        m = _model(model, "diagnorm", ord=case["ord"], d=fs2b(full), square=True)
     valid = case["ord"] in [ord_wire(v) for v in ORDS_VALID]
     ctx.case(case, json.dumps(case, sort_keys=True) if valid else None)
     ctx.count(f"diagnorm:{case['form']}:{'valid' if valid else 'invalid'}")
@@ -695,7 +695,7 @@ def correspond(ctx, model):
     for i in range(ctx.n(40, 400)):
         desc = G.gen_operator(rng)
         case = {"what": "pdhg", "desc": desc, "ratio": float([1.0, 0.5, 2.0, 4.0, 0.125][int(rng.integers(0, 5))]),
-                "factor": ["default", None, 1.0, 1.5, 2.0][int(rng.integers(0, 5))],
+                "factor": ["default", "default", None, 1.0, 1.5, 2.0][int(rng.integers(0, 6))],
                 "maxiter": int([0, 1, 2, 5, 20, 40][int(rng.integers(0, 6))]), "key": [None, 1, 2][int(rng.integers(0, 3))]}
         check_pdhg(ctx, model, case)
     for i in range(ctx.n(30, 300)):
